@@ -25,7 +25,7 @@ RULE = (
     "Decimals, bytes, Xml* values, AnyElement trees, attribute maps, defaults for elision) plus hand-written models with inner "
     "classes, inner enums, enum lists, stdlib date/time, init=False fields, generics (vf/props/c18_models.py). Judges: compile(), "
     "exec in an empty namespace, type-exact deep equality; hand-written models additionally in a fresh subprocess. "
-    "Non-trivial = instance has at least one non-default field; distinct = distinct (model structure, instance)."
+    "every hand-written case is additionally rendered through one long-lived serializer shared by the whole shard (its output must evaluate back as well). Non-trivial = instance has at least one non-default field; distinct = distinct (model structure, instance)."
 )
 ASSUMPTIONS = [
     "deep equality is type-exact for containers (a frozen model's tuple must come back as a tuple) and uses == for leaves (NaN-aware)",
@@ -68,6 +68,19 @@ def render(obj):
     from xsdata.formats.dataclass.serializers import PycodeSerializer
 
     return PycodeSerializer(context=XmlContext()).render(obj, "obj_x")
+
+
+_SHARED = []
+
+
+def render_shared(obj):
+    """The same render through one long-lived serializer (seeded change C18-r4-2: state left behind by an earlier render)."""
+    from xsdata.formats.dataclass.context import XmlContext
+    from xsdata.formats.dataclass.serializers import PycodeSerializer
+
+    if not _SHARED:
+        _SHARED.append(PycodeSerializer(context=XmlContext()))
+    return _SHARED[0].render(obj, "obj_x")
 
 
 def check_ir(ctx, model, style, loaded, obj):
@@ -158,6 +171,15 @@ def check_hand(ctx, seed, subprocess_leg=False):
         ctx.violation(f"render-raises/{type(obj).__name__}/{bc.short_exc(e)}", f"{type(e).__name__}: {e}\n{obj!r}", w)
         return
     back = check_source(ctx, obj, src, w, type(obj).__name__)
+    try:
+        src2 = render_shared(obj)
+    except Exception as e:  # noqa: BLE001
+        ctx.violation(f"reused-serializer/render-raises/{type(obj).__name__}/{bc.short_exc(e)}", f"{type(e).__name__}: {e}\n{obj!r}", w)
+        src2 = src
+    ctx.feature("reused-serializer-leg")
+    if src2 != src:  # a different spelling is allowed, it only has to evaluate back to the object as well
+        ctx.feature("reused-serializer-leg:source-differs")
+        check_source(ctx, obj, src2, w, f"reused-serializer/{type(obj).__name__}")
     if subprocess_leg and back is not None:
         ctx.feature("fresh-subprocess-leg")
         env = core.child_env()
